@@ -70,36 +70,60 @@ Lemma t_beam_nopad_angular_spectrum_ok u K A : t_beam_nopad_angular_spectrum F F
 Proof. unfold t_beam_nopad_angular_spectrum; open_pipe. field_eq. Qed.
 Lemma t_beam_padcrop_angular_spectrum_ok u K A : t_beam_padcrop_angular_spectrum F Finv S Sinv PAD CROP u K A = CROP (cust (PAD u) K A).
 Proof. unfold t_beam_padcrop_angular_spectrum; open_pipe. field_eq. Qed.
+Lemma t_beam_padonly_angular_spectrum_ok u K A : t_beam_padonly_angular_spectrum F Finv S Sinv PAD u K A = cust (PAD u) K A.
+Proof. unfold t_beam_padonly_angular_spectrum; open_pipe. field_eq. Qed.
+Lemma t_beam_croponly_angular_spectrum_ok u K A : t_beam_croponly_angular_spectrum F Finv S Sinv CROP u K A = CROP (cust u K A).
+Proof. unfold t_beam_croponly_angular_spectrum; open_pipe. field_eq. Qed.
 Lemma t_band_limited_angular_spectrum_ok u K A : t_band_limited_angular_spectrum F Finv S Sinv u K A = cust u K A.
 Proof. unfold t_band_limited_angular_spectrum; open_pipe. field_eq. Qed.
 Lemma t_beam_nopad_band_limited_angular_spectrum_ok u K A : t_beam_nopad_band_limited_angular_spectrum F Finv S Sinv u K A = cust u K A.
 Proof. unfold t_beam_nopad_band_limited_angular_spectrum; open_pipe. field_eq. Qed.
 Lemma t_beam_padcrop_band_limited_angular_spectrum_ok u K A : t_beam_padcrop_band_limited_angular_spectrum F Finv S Sinv PAD CROP u K A = CROP (cust (PAD u) K A).
 Proof. unfold t_beam_padcrop_band_limited_angular_spectrum; open_pipe. field_eq. Qed.
+Lemma t_beam_padonly_band_limited_angular_spectrum_ok u K A : t_beam_padonly_band_limited_angular_spectrum F Finv S Sinv PAD u K A = cust (PAD u) K A.
+Proof. unfold t_beam_padonly_band_limited_angular_spectrum; open_pipe. field_eq. Qed.
+Lemma t_beam_croponly_band_limited_angular_spectrum_ok u K A : t_beam_croponly_band_limited_angular_spectrum F Finv S Sinv CROP u K A = CROP (cust u K A).
+Proof. unfold t_beam_croponly_band_limited_angular_spectrum; open_pipe. field_eq. Qed.
 Lemma t_transfer_function_fresnel_ok u K A : t_transfer_function_fresnel F Finv S Sinv u K A = cust u K A.
 Proof. unfold t_transfer_function_fresnel; open_pipe. field_eq. Qed.
 Lemma t_beam_nopad_transfer_function_fresnel_ok u K A : t_beam_nopad_transfer_function_fresnel F Finv S Sinv u K A = cust u K A.
 Proof. unfold t_beam_nopad_transfer_function_fresnel; open_pipe. field_eq. Qed.
 Lemma t_beam_padcrop_transfer_function_fresnel_ok u K A : t_beam_padcrop_transfer_function_fresnel F Finv S Sinv PAD CROP u K A = CROP (cust (PAD u) K A).
 Proof. unfold t_beam_padcrop_transfer_function_fresnel; open_pipe. field_eq. Qed.
+Lemma t_beam_padonly_transfer_function_fresnel_ok u K A : t_beam_padonly_transfer_function_fresnel F Finv S Sinv PAD u K A = cust (PAD u) K A.
+Proof. unfold t_beam_padonly_transfer_function_fresnel; open_pipe. field_eq. Qed.
+Lemma t_beam_croponly_transfer_function_fresnel_ok u K A : t_beam_croponly_transfer_function_fresnel F Finv S Sinv CROP u K A = CROP (cust u K A).
+Proof. unfold t_beam_croponly_transfer_function_fresnel; open_pipe. field_eq. Qed.
 Lemma t_impulse_response_fresnel_ok u K A : t_impulse_response_fresnel F Finv S Sinv u K A = cust u K A.
 Proof. unfold t_impulse_response_fresnel; open_pipe. field_eq. Qed.
 Lemma t_beam_nopad_impulse_response_fresnel_ok u K A : t_beam_nopad_impulse_response_fresnel F Finv S Sinv u K A = cust u K A.
 Proof. unfold t_beam_nopad_impulse_response_fresnel; open_pipe. field_eq. Qed.
 Lemma t_beam_padcrop_impulse_response_fresnel_ok u K A : t_beam_padcrop_impulse_response_fresnel F Finv S Sinv PAD CROP u K A = CROP (cust (PAD u) K A).
 Proof. unfold t_beam_padcrop_impulse_response_fresnel; open_pipe. field_eq. Qed.
+Lemma t_beam_padonly_impulse_response_fresnel_ok u K A : t_beam_padonly_impulse_response_fresnel F Finv S Sinv PAD u K A = cust (PAD u) K A.
+Proof. unfold t_beam_padonly_impulse_response_fresnel; open_pipe. field_eq. Qed.
+Lemma t_beam_croponly_impulse_response_fresnel_ok u K A : t_beam_croponly_impulse_response_fresnel F Finv S Sinv CROP u K A = CROP (cust u K A).
+Proof. unfold t_beam_croponly_impulse_response_fresnel; open_pipe. field_eq. Qed.
 Lemma t_seperable_impulse_response_fresnel_ok u K A : t_seperable_impulse_response_fresnel F Finv S Sinv u K A = cust u K A.
 Proof. unfold t_seperable_impulse_response_fresnel; open_pipe. field_eq. Qed.
 Lemma t_beam_nopad_seperable_impulse_response_fresnel_ok u K A : t_beam_nopad_seperable_impulse_response_fresnel F Finv S Sinv u K A = cust u K A.
 Proof. unfold t_beam_nopad_seperable_impulse_response_fresnel; open_pipe. field_eq. Qed.
 Lemma t_beam_padcrop_seperable_impulse_response_fresnel_ok u K A : t_beam_padcrop_seperable_impulse_response_fresnel F Finv S Sinv PAD CROP u K A = CROP (cust (PAD u) K A).
 Proof. unfold t_beam_padcrop_seperable_impulse_response_fresnel; open_pipe. field_eq. Qed.
+Lemma t_beam_padonly_seperable_impulse_response_fresnel_ok u K A : t_beam_padonly_seperable_impulse_response_fresnel F Finv S Sinv PAD u K A = cust (PAD u) K A.
+Proof. unfold t_beam_padonly_seperable_impulse_response_fresnel; open_pipe. field_eq. Qed.
+Lemma t_beam_croponly_seperable_impulse_response_fresnel_ok u K A : t_beam_croponly_seperable_impulse_response_fresnel F Finv S Sinv CROP u K A = CROP (cust u K A).
+Proof. unfold t_beam_croponly_seperable_impulse_response_fresnel; open_pipe. field_eq. Qed.
 Lemma t_incoherent_angular_spectrum_ok u K A : t_incoherent_angular_spectrum F Finv S Sinv u K A = cust u K A.
 Proof. unfold t_incoherent_angular_spectrum; open_pipe. field_eq. Qed.
 Lemma t_beam_nopad_incoherent_angular_spectrum_ok u K A : t_beam_nopad_incoherent_angular_spectrum F Finv S Sinv u K A = cust u K A.
 Proof. unfold t_beam_nopad_incoherent_angular_spectrum; open_pipe. field_eq. Qed.
 Lemma t_beam_padcrop_incoherent_angular_spectrum_ok u K A : t_beam_padcrop_incoherent_angular_spectrum F Finv S Sinv PAD CROP u K A = CROP (cust (PAD u) K A).
 Proof. unfold t_beam_padcrop_incoherent_angular_spectrum; open_pipe. field_eq. Qed.
+Lemma t_beam_padonly_incoherent_angular_spectrum_ok u K A : t_beam_padonly_incoherent_angular_spectrum F Finv S Sinv PAD u K A = cust (PAD u) K A.
+Proof. unfold t_beam_padonly_incoherent_angular_spectrum; open_pipe. field_eq. Qed.
+Lemma t_beam_croponly_incoherent_angular_spectrum_ok u K A : t_beam_croponly_incoherent_angular_spectrum F Finv S Sinv CROP u K A = CROP (cust u K A).
+Proof. unfold t_beam_croponly_incoherent_angular_spectrum; open_pipe. field_eq. Qed.
 Lemma n_angular_spectrum_ok u H : n_angular_spectrum F Finv S Sinv u H = cust u H fone.
 Proof. unfold n_angular_spectrum; open_pipe. field_eq. Qed.
 Lemma n_band_limited_angular_spectrum_ok u H : n_band_limited_angular_spectrum F Finv S Sinv u H = cust u H fone.
